@@ -144,8 +144,8 @@ def h_struct(s, func, n, pot, order, rev=False, dup=False, labels=False, outside
         got = res.solution
         s.check(isinstance(got, dict) and {inv.get(a, -1): b for a, b in got.items()} == want, "kcore.core_numbers",
                 detail={"got": repr(got), "want": want})
-        s.check(res.objective == max(want.values()), "kcore.objective_is_max_core")
-        if max(want.values()) >= 2:
+        s.check(res.objective == max(want.values(), default=0), "kcore.objective_is_max_core")
+        if max(want.values(), default=0) >= 2:
             s.goal("kcore.2plus")
     else:
         want = core_numbers(n, edges)
@@ -178,7 +178,8 @@ def h_pagerank(s, n, arcs, max_iter, edges_variant=False):
     eps = 1e-9
     s.check(AND([sc[v] >= 0 for v in range(n)]), "pr.scores_nonnegative")
     tot = ssum(sc[v] for v in range(n))
-    s.check(AND(tot <= 1 + eps, tot >= 1 - eps), "pr.scores_sum_to_one")
+    if n > 0:  # no nodes, no scores: nothing to sum
+        s.check(AND(tot <= 1 + eps, tot >= 1 - eps), "pr.scores_sum_to_one")
     outdeg = {u: len(adj[u]) for u in range(n)}
     dang = ssum(sc[u] for u in range(n) if outdeg[u] == 0)
     if any(outdeg[u] == 0 for u in range(n)):
@@ -267,6 +268,13 @@ NAMED_LV = {
 def items(tier, rng):
     out = []
     q = tier == "quick"
+    # empty and one-node graphs
+    for func in ("ap", "bridges", "kcore", "kcore_k"):
+        out.append({"name": func + "_0", "harness": "h_struct", "params": {"func": func, "n": 0, "pot": [], "order": []}})
+        out.append({"name": func + "_1", "harness": "h_struct", "params": {"func": func, "n": 1, "pot": [(0, 0)], "order": [0]}})
+    for n0 in (0, 1):
+        out.append({"name": "pr_%d" % n0, "harness": "h_pagerank", "params": {"n": n0, "arcs": [(0, 0)] if n0 else [], "max_iter": 3}})
+        out.append({"name": "lv_%d" % n0, "harness": "h_louvain", "params": {"n": n0, "edges": []}})
     for func in ("ap", "bridges", "kcore", "kcore_k"):
         orders4 = [[0, 1, 2, 3], [2, 0, 3, 1], [3, 2, 1, 0]]
         for order in orders4:
